@@ -50,6 +50,12 @@ def int_bits_of(t):
     return int_bits(norm_ty(t))
 
 def run(ctx, rep):
+    _run(ctx, rep)
+    if ctx.tier == 'thorough':
+        import witness
+        witness.check(rep, ctx, ['C05ForgeCacheHandle', 'C05ForgeTranslationHandle', 'C05HandleKinds'])
+
+def _run(ctx, rep):
     f = ctx.facts
     tabs = [t for t in all_tables(f) if 'handle_offset' in t.fields]
     rep.floor('tables with an offset counter', len(tabs), 4)
